@@ -12,8 +12,32 @@ import (
 
 func sim(fd int) bool { return simrt.S != nil && kernel.IsSim(fd) }
 
+// Real descriptors the code under test makes itself (dup of a real file for Sendfile) belong
+// to the run that made them. A run that ends while such a descriptor is still queued somewhere
+// would leak it into the worker process; after some ten thousand runs the numbers of real
+// descriptors reach the range reserved for simulated ones and a close of the one hits the
+// other. They are therefore recorded and whatever is left is closed when the next run starts.
+var (
+	realDups      = map[int]bool{}
+	realDupsEpoch uint64
+)
+
+func sweepRealDups() {
+	if e := simrt.Epoch(); e != realDupsEpoch {
+		for fd := range realDups {
+			std.Close(fd)
+		}
+		realDups = map[int]bool{}
+		realDupsEpoch = e
+	}
+}
+
 func Close(fd int) error {
 	if !sim(fd) {
+		if simrt.S != nil {
+			sweepRealDups()
+			delete(realDups, fd)
+		}
 		return std.Close(fd)
 	}
 	return kernel.K().Close(fd)
@@ -38,7 +62,18 @@ func Pwrite(fd int, p []byte, off int64) (int, error) { return std.Pwrite(fd, p,
 
 func Dup(fd int) (int, error) {
 	if !sim(fd) {
-		return std.Dup(fd)
+		nfd, err := std.Dup(fd)
+		if err == nil && simrt.S != nil {
+			sweepRealDups()
+			if kernel.IsSim(nfd) {
+				// must not happen any more; if it does, say so instead of corrupting the run
+				std.Close(nfd)
+				simrt.Fatal("harness: a real descriptor number reached the simulated range")
+				return -1, std.EMFILE
+			}
+			realDups[nfd] = true
+		}
+		return nfd, err
 	}
 	return kernel.K().Dup(fd)
 }
